@@ -250,6 +250,17 @@ def seq_cases(n):
             for seq in itertools.product(range(len(items)), repeat=k):
                 if len(set(seq)) == len(seq):
                     yield {'k': 'seq', 'fam': 'struct', 'cpu': cpu, 'seq': list(seq)}
+    # lines that grow while they are processed: #define expansions (length of the definition x number of uses, definitions
+    # that use definitions) and TABs in stored body lines, which are expanded to blanks
+    for dl in (1, 10, 100, 250):
+        for uses in (1, 10, 50, 120):
+            yield {'k': 'seq', 'fam': 'grow', 'seq': ['def', dl, uses]}
+    for depth in (1, 2, 4, 6, 8, 10):
+        yield {'k': 'seq', 'fam': 'grow', 'seq': ['defdef', depth, 0]}
+    for body in ('macro', 'rept', 'irp', 'irpc', 'while'):
+        for tabs in (1, 8, 40, 130, 300, 1000):
+            for where in ('tail', 'mid'):
+                yield {'k': 'seq', 'fam': 'grow', 'seq': ['tabs', body, tabs, where]}
 
 
 def builtin_functions():
@@ -402,6 +413,16 @@ def evaluate(case):
             src = '\tcpu 8080\nx\tset 1\n' + '\n'.join(PV[i] for i in case['seq']) + '\n\tnop\n'
         elif case['fam'] == 'binclude':
             src = '\tcpu 8080\n' + '\n'.join(BINC[i] for i in case['seq']) + '\n\tnop\n'
+        elif case['fam'] == 'grow':
+            q = case['seq']
+            if q[0] == 'def':
+                src = '\tcpu 8080\n#define X %s1\n\tdb %s\n' % ('1+' * (q[1] // 2), ','.join(['X'] * q[2]))
+            elif q[0] == 'defdef':
+                src = '\tcpu 8080\n' + ''.join('#define X%d X%d+X%d\n' % (i, i + 1, i + 1) for i in range(q[1])) + '#define X%d 1\n\tdw X0\n' % q[1]
+            else:
+                line = ('\tnop' + '\t' * q[2]) if q[3] == 'tail' else ('\tdb' + '\t' * q[2] + '1')
+                head = {'macro': 'm\tmacro', 'rept': '\trept 2', 'irp': '\tirp p,1,2', 'irpc': '\tirpc p,12', 'while': 'c\tset 0\n\twhile c<2\nc\tset c+1'}[q[1]]
+                src = '\tcpu 8080\n%s\n%s\n\tendm\n%s\tnop\n' % (head, line, '\tm\n' if q[1] == 'macro' else '')
         else:
             src = '\tcpu %s\nflags\tstruct\n%s\nflags\tendstruct\n\tnop\n' % (case['cpu'], '\n'.join(STRUCT_T[case['cpu']][i] for i in case['seq']))
 
